@@ -448,6 +448,9 @@ func (c *Case) aliasInfos() ([]aliasInfo, error) {
 			}
 		}
 		last := l.To[len(l.To)-1]
+		if f := l.From; len(f) > 0 && last[0] == 'f' && (f[len(f)-1][0] == 'i' || f[len(f)-1][0] == 'k' || (f[len(f)-1][0] == '*' && !l.Addr && ftd.Kind == "ptr" && len(f) > 1)) {
+			last = f[len(f)-1] // (the object found as an element, entry or pointee is stored in a field: the same relation)
+		}
 		through := strings.Contains(strings.Join(l.From, "")+strings.Join(l.To[:len(l.To)-1], ""), "~")
 		switch {
 		case ai.toIface:
@@ -1116,3 +1119,178 @@ var subShared = runlog.Register(&runlog.Sub[Case]{
 })
 
 func TestSharedPrefill(t *testing.T) { subShared.Check(t, 60000, 600000) }
+
+// ---------------------------------------------------------------------------
+// The alias grid: every kind of shareable object x every relation of its two
+// places x which place's validators reject it x which place has a setting. It
+// makes sure that every combination is exercised in every run with the
+// rejection standing alone (nothing else in the type can reject), whatever the
+// random search draws; the oracle is the one of the random search.
+
+type aliasSrc struct {
+	name           string
+	td             func() *gen.TD
+	tv             func() *gen.TV
+	accept, reject string    // a tag the shared default satisfies ("" = no tag), one it breaks
+	good           *gen.Tree // a setting the rejecting tag accepts
+	conv           *gen.TD   // the type of the place B if it differs from the type of A in name only (B then has no tag: its Validate() rejects)
+}
+
+func aliasSources() []aliasSrc {
+	sec := int64(1000000000)
+	p := func(k string) func() *gen.TD { return func() *gen.TD { return tdOf("ptr", ptd(k)) } }
+	return []aliasSrc{
+		{"*int", p("int"), func() *gen.TV { return tvPtr(tvI(5)) }, "min=1", "min=10", num(20), nil},
+		{"*time.Duration", p("dur"), func() *gen.TV { return tvPtr(tvI(5 * sec)) }, "min=1s", "min=10s", gen.Str("20s"), nil},
+		{"*float64", p("float64"), func() *gen.TV { return tvPtr(&gen.TV{F: "0x1.4p+01"}) }, "positive", "max=1.5", gen.Float(1), nil},
+		{"*string", p("string"), func() *gen.TV { return tvPtr(&gen.TV{}) }, "", "required", gen.Str("x"), nil},
+		{"*uint16", p("uint16"), func() *gen.TV { return tvPtr(&gen.TV{}) }, "max=3", "nonzero", num(2), nil},
+		{"**int", func() *gen.TD { return tdOf("ptr", tdOf("ptr", ptd("int"))) }, func() *gen.TV { return tvPtr(tvPtr(tvI(5))) }, "min=1", "min=10", num(20), nil},
+		{"*regexp.Regexp", func() *gen.TD { return ptd("regexp") }, func() *gen.TV { return &gen.TV{S: ""} }, "", "nonzero", gen.Str("a+"), nil},
+		{"empty map", func() *gen.TD { return tdOf("map", ptd("int")) }, func() *gen.TV { return &gen.TV{Keys: []string{}, Elems: []*gen.TV{}} }, "", "required", objOf("k", num(1)), nil},
+		{"empty slice", func() *gen.TD { return tdOf("slice", ptd("string")) }, func() *gen.TV { return tvS() }, "", "nonzero", gen.List(gen.Str("x")), nil},
+		{"pointer to an empty slice", func() *gen.TD { return tdOf("ptr", tdOf("slice", ptd("string"))) }, func() *gen.TV { return tvPtr(tvS()) }, "", "required", gen.List(gen.Str("x")), nil},
+		// one object under two types that differ in name only: a plain type with tags at A, a catalogue type with Validate() at B
+		{"*int seen as *named int with Validate() (value receiver)", p("int"), func() *gen.TV { return tvPtr(tvI(-1)) }, "max=3", "", num(1), tdOf("ptr", ptd("cat:c04_vi"))},
+		{"*int seen as *named int with Validate() (pointer receiver)", p("int"), func() *gen.TV { return tvPtr(tvI(-1)) }, "max=3", "", num(1), tdOf("ptr", ptd("cat:c04_pi"))},
+		{"*int64 seen as *time.Duration", p("int64"), func() *gen.TV { return tvPtr(tvI(5 * sec)) }, "min=1", "max=1s", gen.Str("1s"), tdOf("ptr", ptd("dur"))},
+		{"[]int seen as a named list with Validate()", func() *gen.TD { return tdOf("slice", ptd("int")) }, func() *gen.TV { return tvS(tvI(-1)) }, "required", "", gen.List(num(1)), ptd("cat:c04_pl")},
+		{"map[string]int seen as a named map with Validate()", func() *gen.TD { return tdOf("map", ptd("int")) }, func() *gen.TV { return tvMap("k", tvI(-1)) }, "required", "", objOf("k", num(1)), ptd("cat:c04_vm")},
+	}
+}
+
+// aliasPlc places the object at A and B. steps: the paths of the two places;
+// cfgA / cfgB wrap a setting for the place into the top-level configuration;
+// tagA reports whether the place A can carry a tag of its own.
+type aliasPlc struct {
+	name  string
+	build func(ta, tb *gen.TD, va, vb *gen.TV, tagA, tagB string) (T *gen.TD, pre *gen.TV, a, b []string, cfgA, cfgB func(*gen.Tree) *gen.Tree, dyn []*gen.TD)
+	tagA  bool
+	iface bool // A is an interface holding the object: the link goes from B to A
+}
+
+func aliasPlacements() []aliasPlc {
+	z := func() gen.FD { return gen.FD{Name: "Z", Tag: "z", T: ptd("int")} }
+	fa := func(t *gen.TD, tag string) gen.FD { return gen.FD{Name: "A", Tag: "a", Validate: tag, T: t} }
+	fb := func(t *gen.TD, tag string) gen.FD { return gen.FD{Name: "B", Tag: "b", Validate: tag, T: t} }
+	st := func(fs ...gen.FD) *gen.TD { return &gen.TD{Kind: "struct", Fields: fs} }
+	top := func(k string) func(*gen.Tree) *gen.Tree { return func(v *gen.Tree) *gen.Tree { return objOf(k, v) } }
+	in := func(k1, k2 string) func(*gen.Tree) *gen.Tree {
+		return func(v *gen.Tree) *gen.Tree { return objOf(k1, objOf(k2, v)) }
+	}
+	type bf = func(ta, tb *gen.TD, va, vb *gen.TV, tagA, tagB string) (*gen.TD, *gen.TV, []string, []string, func(*gen.Tree) *gen.Tree, func(*gen.Tree) *gen.Tree, []*gen.TD)
+	return []aliasPlc{
+		{"two fields of one struct", bf(func(ta, tb *gen.TD, va, vb *gen.TV, tagA, tagB string) (*gen.TD, *gen.TV, []string, []string, func(*gen.Tree) *gen.Tree, func(*gen.Tree) *gen.Tree, []*gen.TD) {
+			return st(z(), fa(ta, tagA), fb(tb, tagB)), tvS(tvI(0), va, vb), []string{"f1"}, []string{"f2"}, top("a"), top("b"), nil
+		}), true, false},
+		{"a field and a field of a nested struct declared after it", bf(func(ta, tb *gen.TD, va, vb *gen.TV, tagA, tagB string) (*gen.TD, *gen.TV, []string, []string, func(*gen.Tree) *gen.Tree, func(*gen.Tree) *gen.Tree, []*gen.TD) {
+			return st(z(), fa(ta, tagA), gen.FD{Name: "N", Tag: "n", T: st(fb(tb, tagB))}), tvS(tvI(0), va, tvS(vb)), []string{"f1"}, []string{"f2", "f0"}, top("a"), in("n", "b"), nil
+		}), true, false},
+		{"a field of a nested struct and a field declared after it", bf(func(ta, tb *gen.TD, va, vb *gen.TV, tagA, tagB string) (*gen.TD, *gen.TV, []string, []string, func(*gen.Tree) *gen.Tree, func(*gen.Tree) *gen.Tree, []*gen.TD) {
+			return st(z(), gen.FD{Name: "N", Tag: "n", T: st(fa(ta, tagA))}, fb(tb, tagB)), tvS(tvI(0), tvS(va), vb), []string{"f1", "f0"}, []string{"f2"}, in("n", "a"), top("b"), nil
+		}), true, false},
+		{"a field and a field of a struct behind a pointer", bf(func(ta, tb *gen.TD, va, vb *gen.TV, tagA, tagB string) (*gen.TD, *gen.TV, []string, []string, func(*gen.Tree) *gen.Tree, func(*gen.Tree) *gen.Tree, []*gen.TD) {
+			return st(z(), fa(ta, tagA), gen.FD{Name: "N", Tag: "n", T: tdOf("ptr", st(fb(tb, tagB)))}), tvS(tvI(0), va, tvPtr(tvS(vb))), []string{"f1"}, []string{"f2", "*", "f0"}, top("a"), in("n", "b"), nil
+		}), true, false},
+		{"a field of an inline struct and a field", bf(func(ta, tb *gen.TD, va, vb *gen.TV, tagA, tagB string) (*gen.TD, *gen.TV, []string, []string, func(*gen.Tree) *gen.Tree, func(*gen.Tree) *gen.Tree, []*gen.TD) {
+			return st(z(), gen.FD{Name: "N", Inline: true, T: st(fa(ta, tagA))}, fb(tb, tagB)), tvS(tvI(0), tvS(va), vb), []string{"f1", "f0"}, []string{"f2"}, top("a"), top("b"), nil
+		}), true, false},
+		{"a field of a struct in a list and a field", bf(func(ta, tb *gen.TD, va, vb *gen.TV, tagA, tagB string) (*gen.TD, *gen.TV, []string, []string, func(*gen.Tree) *gen.Tree, func(*gen.Tree) *gen.Tree, []*gen.TD) {
+			return st(z(), gen.FD{Name: "L", Tag: "l", T: tdOf("slice", st(fa(ta, tagA)))}, fb(tb, tagB)), tvS(tvI(0), tvS(tvS(va)), vb), []string{"f1", "i0", "f0"}, []string{"f2"},
+				func(v *gen.Tree) *gen.Tree { return objOf("l", gen.List(objOf("a", v))) }, top("b"), nil
+		}), true, false},
+		{"a list element and a field", bf(func(ta, tb *gen.TD, va, vb *gen.TV, tagA, tagB string) (*gen.TD, *gen.TV, []string, []string, func(*gen.Tree) *gen.Tree, func(*gen.Tree) *gen.Tree, []*gen.TD) {
+			return st(z(), fa(tdOf("slice", ta), ""), fb(tb, tagB)), tvS(tvI(0), tvS(va), vb), []string{"f1", "i0"}, []string{"f2"}, func(v *gen.Tree) *gen.Tree { return objOf("a", gen.List(v)) }, top("b"), nil
+		}), false, false},
+		{"an array element and a field", bf(func(ta, tb *gen.TD, va, vb *gen.TV, tagA, tagB string) (*gen.TD, *gen.TV, []string, []string, func(*gen.Tree) *gen.Tree, func(*gen.Tree) *gen.Tree, []*gen.TD) {
+			return st(z(), fa(&gen.TD{Kind: "array", N: 1, Elem: ta}, ""), fb(tb, tagB)), tvS(tvI(0), tvS(va), vb), []string{"f1", "i0"}, []string{"f2"}, func(v *gen.Tree) *gen.Tree { return objOf("a", gen.List(v)) }, top("b"), nil
+		}), false, false},
+		{"a map entry and a field", bf(func(ta, tb *gen.TD, va, vb *gen.TV, tagA, tagB string) (*gen.TD, *gen.TV, []string, []string, func(*gen.Tree) *gen.Tree, func(*gen.Tree) *gen.Tree, []*gen.TD) {
+			return st(z(), fa(tdOf("map", ta), ""), fb(tb, tagB)), tvS(tvI(0), tvMap("k", va), vb), []string{"f1", "kk"}, []string{"f2"}, func(v *gen.Tree) *gen.Tree { return objOf("a", objOf("k", v)) }, top("b"), nil
+		}), false, false},
+		{"a field and a list element declared after it", bf(func(ta, tb *gen.TD, va, vb *gen.TV, tagA, tagB string) (*gen.TD, *gen.TV, []string, []string, func(*gen.Tree) *gen.Tree, func(*gen.Tree) *gen.Tree, []*gen.TD) {
+			// (the roles are exchanged: the tagged field comes first, the element - judged by its type only - second)
+			return st(z(), fb(tb, tagB), fa(tdOf("slice", ta), "")), tvS(tvI(0), vb, tvS(va)), []string{"f2", "i0"}, []string{"f1"}, func(v *gen.Tree) *gen.Tree { return objOf("a", gen.List(v)) }, top("b"), nil
+		}), false, false},
+		{"an interface{} field holding the object and a field", bf(func(ta, tb *gen.TD, va, vb *gen.TV, tagA, tagB string) (*gen.TD, *gen.TV, []string, []string, func(*gen.Tree) *gen.Tree, func(*gen.Tree) *gen.Tree, []*gen.TD) {
+			return st(z(), fa(ifc(), tagA), fb(tb, tagB)), tvS(tvI(0), dynTV(0, va), vb), []string{"f1"}, []string{"f2"}, top("a"), top("b"), []*gen.TD{ta}
+		}), true, true},
+		{"an element of []interface{} holding the object and a field", bf(func(ta, tb *gen.TD, va, vb *gen.TV, tagA, tagB string) (*gen.TD, *gen.TV, []string, []string, func(*gen.Tree) *gen.Tree, func(*gen.Tree) *gen.Tree, []*gen.TD) {
+			return st(z(), fa(tdOf("slice", ifc()), ""), fb(tb, tagB)), tvS(tvI(0), tvS(dynTV(0, va)), vb), []string{"f1", "i0"}, []string{"f2"}, func(v *gen.Tree) *gen.Tree { return objOf("a", gen.List(v)) }, top("b"), []*gen.TD{ta}
+		}), false, true},
+		{"the pointee of a further pointer and a field", bf(func(ta, tb *gen.TD, va, vb *gen.TV, tagA, tagB string) (*gen.TD, *gen.TV, []string, []string, func(*gen.Tree) *gen.Tree, func(*gen.Tree) *gen.Tree, []*gen.TD) {
+			return st(z(), fa(tdOf("ptr", ta), tagA), fb(tb, tagB)), tvS(tvI(0), tvPtr(va), vb), []string{"f1", "*"}, []string{"f2"}, top("a"), top("b"), nil
+		}), true, false},
+	}
+}
+
+func enumAliasGrid(yield func(Case) bool) {
+	for _, src := range aliasSources() {
+		for _, pl := range aliasPlacements() {
+			if pl.name == "the pointee of a further pointer and a field" && src.td().Shape().Kind != "ptr" {
+				continue
+			}
+			// which place's validators reject: B only, A only (if A can carry a tag), none, B with no tag at A
+			type tags struct{ a, b string }
+			variants := []tags{{src.accept, src.reject}, {"", src.reject}, {src.accept, src.accept}}
+			if pl.tagA && src.conv == nil {
+				variants = append(variants, tags{src.reject, src.accept})
+			}
+			if src.conv != nil {
+				// B is judged by the Validate() of its type
+				variants = []tags{{src.accept, ""}, {"", ""}}
+			}
+			seen := map[tags]bool{}
+			for _, tg := range variants {
+				if !pl.tagA {
+					tg.a = ""
+				}
+				if pl.iface && tg.a != "" && src.td().Shape().Kind != "ptr" {
+					continue // (bounds on an interface{} field are generated for numbers only)
+				}
+				if seen[tg] {
+					continue
+				}
+				seen[tg] = true
+				for cfgv := 0; cfgv < 5; cfgv++ {
+					ta, tb := src.td(), src.td()
+					if src.conv != nil {
+						tb = cloneTD(src.conv)
+					}
+					if pl.iface && src.conv != nil {
+						continue
+					}
+					T, pre, a, b, cfgA, cfgB, dyn := pl.build(ta, tb, src.tv(), src.tv(), tg.a, tg.b)
+					c := Case{T: T, Pre: pre, Dyn: dyn, Alias: []aliasLink{{From: a, To: b}}}
+					if pl.iface {
+						c.Alias = []aliasLink{{From: b, To: a}}
+					}
+					switch cfgv {
+					case 0:
+						c.Cfg = gen.Obj()
+					case 1:
+						c.Cfg = objOf("z", num(1))
+					case 2:
+						c.Cfg = cfgB(src.good.Clone()) // B overridden by a setting its validators accept
+					case 3:
+						c.Cfg = cfgA(src.good.Clone()) // A overridden, B keeps the shared default
+					case 4:
+						c.Cfg = cfgB(gen.Nil()) // an explicit nil counts as no setting
+					}
+					if !yield(c) {
+						return
+					}
+				}
+			}
+		}
+	}
+}
+
+var subAliasGrid = runlog.Register(&runlog.Sub[Case]{
+	Name: "alias-grid",
+	Rule: "deterministic cross product for the objects a setting replaces at its own place only, plus maps: 15 shared objects with a default that one tag accepts and another rejects (*int 5: min=1 / min=10; *time.Duration 5s: min=1s / min=10s; *float64 2.5: positive / max=1.5; *string \"\": - / required; *uint16 0: max=3 / nonzero; **int; *regexp.Regexp with empty source: - / nonzero; an empty map: - / required; an empty slice: - / nonzero; a pointer to an empty slice: - / required; and one object under two types that differ in name only, the plain type with a tag it satisfies at A and a type whose Validate() (value / pointer receiver) or tag rejects it at B: *int -1 as *named int, *int64 as *time.Duration, []int as a named list, map[string]int as a named map) x 13 relations of the two places A (visited first) and B (two fields of one struct; a field and a field of a nested struct, of a struct behind a pointer, of an inline struct, of a struct in a list, in either order of declaration; a list element, array element or map entry and a field, the field declared after or before the collection; an interface{} field or an element of []interface{} holding the object and a field; the pointee of a further pointer and a field) x which place's validators reject the shared default (B only with an accepting tag or no tag at A; A only; none) x configuration (empty; another field only; a setting B's validators accept for B; the same setting for A, B keeping the shared default; an explicit nil for B). Nothing else in the type can reject, so every rejection stands alone. Same oracle as shared-prefill (every place decided on its own). The enumeration is complete for this finite product.",
+	Enum: enumAliasGrid,
+	Run:  runCase,
+})
+
+func TestAliasGrid(t *testing.T) { subAliasGrid.Enumerate(t, true) }
